@@ -99,6 +99,7 @@ class Interp:
         self.paths = 0
         self.depth = 0
         self.for_value = FREE     # what a `for` pattern / the parameter of an `all`/`any` closure is bound to
+        self.field_vars = set()   # field names tracked like variables (`self.a.flag` -> "$f:flag"), whatever their base
 
     # ------------------------------------------------------------------ entry
     def run(self, body, env=None, st=None):
@@ -354,7 +355,19 @@ class Interp:
         names = [f["name"] for f in e["fields"]]
         return [Out("val", ("E", e["segs"][-1], tuple(zip(names, vals))), s) for vals, s in acc] + esc
 
+    def _place(self, l):
+        """name under which an assignable place is tracked, or None"""
+        while l.get("k") in ("paren", "ref") or (l.get("k") == "unary" and l["op"] == "*"):
+            l = l["e"]
+        if l.get("k") == "path" and len(l["segs"]) == 1:
+            return l["segs"][0]
+        if l.get("k") == "field" and l["name"] in self.field_vars:
+            return "$f:" + l["name"]
+        return None
+
     def _e_field(self, e, st):
+        if e["name"] in self.field_vars:
+            return [Out("val", st.env.get("$f:" + e["name"], UNK), st)]
         res = []
         for o in self.ev(e["base"], st):
             if o.kind != "val":
@@ -532,11 +545,9 @@ class Interp:
             if o.kind != "val":
                 res.append(o)
                 continue
-            l = e["l"]
-            while l.get("k") in ("paren",) or (l.get("k") == "unary" and l["op"] == "*"):
-                l = l["e"]
-            if l.get("k") == "path" and len(l["segs"]) == 1:
-                res.append(Out("val", UNIT, o.st.set(l["segs"][0], o.value)))
+            pl = self._place(e["l"])
+            if pl is not None:
+                res.append(Out("val", UNIT, o.st.set(pl, o.value)))
             else:
                 res.append(Out("val", UNIT, o.st))
         return res
@@ -757,6 +768,14 @@ class Interp:
         acc, esc = self._seq(e["args"], st)
         res = list(esc)
         for vals, s in acc:
+            if name in ("replace", "take", "swap") and f.get("k") == "path" and (len(f["segs"]) == 1 or f["segs"][-2] == "mem") and e["args"]:
+                pl = self._place(e["args"][0])
+                if pl is not None and name in ("replace", "take"):
+                    old_v = s.env.get(pl, UNK)
+                    res.append(Out("val", old_v, s.set(pl, vals[1] if name == "replace" and len(vals) > 1 else UNK if name == "replace" else False if old_v is True or old_v is False else UNK)))
+                    continue
+                res.append(Out("val", UNK, s))
+                continue
             if name in ("Some", "Ok", "Err") and len(vals) == 1:
                 res.append(Out("val", (name, vals[0]), s))
             elif f.get("k") == "path" and len(f["segs"]) == 1 and isinstance(s.env.get(name), tuple) and s.env[name][:1] == ("closure",):
